@@ -339,7 +339,7 @@ Theorem lock_exclusive w slate ttl tip w' :
           (forall v', ~ In (k, m, v') (map (fun x => (fst (fst x), None, snd x)) (c_outs c))) ->
           exists o, get_out (w_outs w') k m = Some o /\ r_status o = Locked /\ r_tx o = Some id).
 Proof.
-  unfold lock. destruct (get_ctx w slate) as [c|] eqn:Ec; [|discriminate].
+  unfold lock, lock_tx; cbn [negb andb]. destruct (get_ctx w slate) as [c|] eqn:Ec; [|discriminate].
   destruct (existsb _ (w_log w)) eqn:Edup; [discriminate|].
   unfold next_log_id. cbn zeta.
   destruct (lock_inputs _ _ _ _) as [[outs1 deb]|e|q] eqn:El; try discriminate.
@@ -362,7 +362,7 @@ Theorem lock_refuses_held w slate ttl tip c k m v :
    | None => True end) ->
   exists e, lock w slate ttl tip = (w, Err e).
 Proof.
-  intros Hc Hin Hbad. unfold lock. rewrite Hc.
+  intros Hc Hin Hbad. unfold lock, lock_tx; cbn [negb andb]. rewrite Hc.
   destruct (existsb _ (w_log w)); [eexists; reflexivity|]. unfold next_log_id. cbn zeta.
   cbn [w_outs with_logid].
   assert (Hl : forall ins outs id deb,
@@ -645,7 +645,7 @@ Qed.
 
 (** a second delivery of a slate already received into that account is refused, no effect *)
 Theorem receive_twice_refused w slate amount ttl dest crypto_ok t :
-  In t (w_log w) -> t_slate t = Some slate -> t_type t = TReceived ->
+  In t (w_log w) -> t_slate t = Some slate -> (t_type t = TReceived \/ t_type t = TReverted) ->
   t_parent t = (match dest with Some d => d | None => w_active w end) ->
   fst (receive w slate amount ttl dest crypto_ok) = w
   /\ is_ok (snd (receive w slate amount ttl dest crypto_ok)) = false.
@@ -654,9 +654,9 @@ Proof.
   destruct (check_ttl w ttl) as [[]|e|q]; try (split; reflexivity).
   assert (E : existsb (fun t0 => optN_eqb (t_slate t0) (Some slate)
              && (t_parent t0 =? match dest with Some d => d | None => w_active w end)
-             && ttype_eqb (t_type t0) TReceived) (w_log w) = true).
-  { apply existsb_exists. exists t. split; [exact Hin|]. rewrite Hs, Ht, Hp, optN_eqb_refl.
-    rewrite N.eqb_refl. reflexivity. }
+             && (ttype_eqb (t_type t0) TReceived || ttype_eqb (t_type t0) TReverted)) (w_log w) = true).
+  { apply existsb_exists. exists t. split; [exact Hin|]. rewrite Hs, Hp, optN_eqb_refl.
+    rewrite N.eqb_refl. destruct Ht as [-> | ->]; reflexivity. }
   rewrite E. split; reflexivity.
 Qed.
 
@@ -718,7 +718,7 @@ Theorem lock_twice_refused w slate ttl tip c t :
   t_parent t = c_parent c -> t_type t = TSent ->
   lock w slate ttl tip = (w, Err EGeneric).
 Proof.
-  intros Hc Hin Hs Hp Ht. unfold lock. rewrite Hc.
+  intros Hc Hin Hs Hp Ht. unfold lock, lock_tx; cbn [negb andb]. rewrite Hc.
   assert (E : existsb (fun t0 => optN_eqb (t_slate t0) (Some slate) && (t_parent t0 =? c_parent c)
                                  && ttype_eqb (t_type t0) TSent) (w_log w) = true).
   { apply existsb_exists. exists t. split; [exact Hin|]. rewrite Hs, Hp, Ht, optN_eqb_refl, N.eqb_refl.
@@ -791,11 +791,11 @@ Proof.
       * destruct (classic_in (map (fun x => (fst (fst x), None, snd x)) (c_outs c)) k m) as [[v Hin]|Hn2].
         -- right. eauto.
         -- left. apply Hkeep; auto.
-    + left. unfold lock in E. destruct (get_ctx w s); [|inversion E; subst; exact Hg].
+    + left. unfold lock, lock_tx in E; cbn [negb andb] in E. destruct (get_ctx w s); [|inversion E; subst; exact Hg].
       destruct (existsb _ _); [inversion E; subst; exact Hg|].
       destruct (next_log_id w (c_parent c)) as [w1 id]. destruct (lock_inputs _ _ _ _) as [[? ?]|?|?];
         inversion E; subst; exact Hg.
-    + left. unfold lock in E. destruct (get_ctx w s); [|inversion E; subst; exact Hg].
+    + left. unfold lock, lock_tx in E; cbn [negb andb] in E. destruct (get_ctx w s); [|inversion E; subst; exact Hg].
       destruct (existsb _ _); [inversion E; subst; exact Hg|].
       destruct (next_log_id w (c_parent c)) as [w1 id]. destruct (lock_inputs _ _ _ _) as [[? ?]|?|?];
         inversion E; subst; exact Hg.
@@ -840,7 +840,7 @@ Qed.
 
 Lemma lock_wf w slate ttl tip w' r : WF w -> lock w slate ttl tip = (w', r) -> WF w'.
 Proof.
-  unfold WF, lock. intros Hn. destruct (get_ctx w slate); [|intros H; inversion H; subst; exact Hn].
+  unfold WF, lock, lock_tx; cbn [negb andb]. intros Hn. destruct (get_ctx w slate); [|intros H; inversion H; subst; exact Hn].
   destruct (existsb _ _); [intros H; inversion H; subst; exact Hn|].
   unfold next_log_id. cbn zeta. cbn [w_outs with_logid].
   destruct (lock_inputs _ _ _ _) as [[o d]|e|q] eqn:E; intros H; inversion H; subst; try exact Hn.
@@ -909,7 +909,7 @@ Lemma lock_ok_fields w slate ttl tip w1 c :
           /\ t_id tnew = id /\ t_type tnew = TSent /\ t_conf tnew = false)
     /\ w_ctxs w1 = w_ctxs w /\ w_child w1 = w_child w /\ w_active w1 = w_active w.
 Proof.
-  intros Hc Hlock. unfold lock in Hlock. rewrite Hc in Hlock.
+  intros Hc Hlock. unfold lock, lock_tx in Hlock; cbn [negb andb] in Hlock. rewrite Hc in Hlock.
   destruct (existsb _ (w_log w)); [discriminate|].
   unfold next_log_id in Hlock. cbn zeta in Hlock. cbn [w_outs with_logid] in Hlock.
   destruct (lock_inputs _ _ _ _) as [[outs1 deb]|e|q] eqn:El; try discriminate.
@@ -1167,7 +1167,7 @@ Proof. unfold get_ctx. intros H. apply find_some in H as [H _]. exact H. Qed.
 Lemma lock_fresh w s t tip :
   Fresh w -> Fresh (fst (lock w s t tip)) /\ child_le w (fst (lock w s t tip)).
 Proof.
-  intros Hf. unfold lock. destruct (get_ctx w s) as [c|] eqn:Ec; cbn [fst];
+  intros Hf. unfold lock, lock_tx; cbn [negb andb]. destruct (get_ctx w s) as [c|] eqn:Ec; cbn [fst];
     [|split; [exact Hf|apply child_le_refl]].
   destruct (existsb _ _); cbn [fst]; [split; [exact Hf|apply child_le_refl]|].
   unfold next_log_id. cbn zeta. cbn [w_outs with_logid].
@@ -1368,13 +1368,76 @@ Proof.
   apply del_ctx_fresh. apply with_log_files_fresh. exact Hf'.
 Qed.
 
+Lemma lock_tx_cases w s t tip h :
+  lock_tx w s t tip h = lock w s t tip \/ lock_tx w s t tip h = (w, Err EFee).
+Proof.
+  unfold lock, lock_tx. destruct (get_ctx w s) as [c|]; [|left; reflexivity].
+  destruct h; cbn [negb andb]; [left; reflexivity|].
+  destruct (c_fee c); [left; reflexivity|right; reflexivity].
+Qed.
+
+Lemma issue_invoice_fresh w s a tip d :
+  Fresh w -> Fresh (fst (issue_invoice w s a tip d)) /\ child_le w (fst (issue_invoice w s a tip d)).
+Proof.
+  intros Hf. unfold issue_invoice.
+  destruct (next_child w) as [w1 key] eqn:En.
+  match goal with |- context [next_log_id w1 ?p] => destruct (next_log_id w1 p) as [w2 id] eqn:El end.
+  cbn [fst].
+  pose proof (next_child_fresh _ _ _ Hf En) as (_ & _ & Hkb).
+  assert (Hle : child_le w w1) by (intros x; eapply child_mono_next; eauto).
+  apply next_child_spec in En as (_ & _ & _ & Ho1 & _ & Hc1 & _).
+  apply next_log_id_spec in El as (_ & Ho2 & _ & Hc2 & Hch2 & _).
+  match goal with |- Fresh (save_ctx ?w3 ?c) /\ _ =>
+    assert (H3 : Fresh w3 /\ child_le w w3) end.
+  { apply fresh_build; auto.
+    - intros x. rewrite Hch2. apply Hle.
+    - congruence.
+    - apply keys_ok_save.
+      + intros o Hin. rewrite Ho2, Ho1 in Hin. unfold key_below. rewrite Hch2.
+        apply (key_below_mono w w1); auto. destruct Hf as [Hfo _]. auto.
+      + cbn. unfold key_below in *. rewrite Hch2. exact Hkb. }
+  destruct H3 as [H3 H4]. split; [|intros x; cbn; apply H4].
+  apply save_ctx_fresh; [exact H3|]. cbn [c_outs]. intros k m v [Heq|[]]. inversion Heq; subst.
+  unfold key_below in *. cbn [w_child with_log with_outs]. rewrite Hch2. exact Hkb.
+Qed.
+
+Lemma process_invoice_fresh w s t src p tip pr km :
+  Fresh w -> Fresh (fst (process_invoice w s t src p tip pr km))
+             /\ child_le w (fst (process_invoice w s t src p tip pr km)).
+Proof.
+  intros Hf. unfold process_invoice.
+  destruct (check_ttl w t) as [[]|e|q]; cbn [fst]; try (split; [exact Hf|apply child_le_refl]).
+  destruct (find _ (w_log w)); cbn [fst]; [split; [exact Hf|apply child_le_refl]|].
+  match goal with |- context [refresh w ?a ?b ?c ?d ?e] =>
+    destruct (refresh_fresh w a b c d e Hf) as [Hfr Hler]; set (wr := refresh w a b c d e) in * end.
+  destruct (build_send _ _) as [b|e|q]; cbn [fst]; try (split; [exact Hfr|exact Hler]).
+  destruct (alloc_change wr (b_changes b)) as [w1 chg] eqn:Ea. cbn [fst].
+  destruct (alloc_change_fresh _ _ _ _ Hfr Ea) as (Hf1 & Hle & Hl).
+  split; [|intros a; cbn; eapply N.le_trans; [apply Hler|apply Hle]].
+  apply save_ctx_fresh; [exact Hf1|].
+  destruct (get_ctx wr s) as [c|] eqn:Ec; cbn [c_outs]; [|exact Hl].
+  intros k m v Hin. apply in_app_or in Hin as [Hin|Hin]; [eapply Hl; eauto|].
+  apply (key_below_mono wr w1); [exact Hle|]. destruct Hfr as [_ Hfc].
+  eapply Hfc; [eapply get_ctx_in; eauto|eauto].
+Qed.
+
+Lemma finalize_invoice_fresh w s c :
+  Fresh w -> Fresh (fst (finalize_invoice w s c)) /\ child_le w (fst (finalize_invoice w s c)).
+Proof.
+  intros Hf. unfold finalize_invoice. destruct (negb c); cbn [fst]; [split; [exact Hf|apply child_le_refl]|].
+  destruct (find _ _); cbn [fst]; [|split; [exact Hf|apply child_le_refl]].
+  split; [|intros a; cbn; lia]. apply del_ctx_fresh. apply with_log_files_fresh. exact Hf.
+Qed.
+
 (** every operation preserves [Fresh] and never decreases a key counter *)
 Theorem step_fresh w op : Fresh w -> Fresh (fst (step w op)) /\ child_le w (fst (step w op)).
 Proof.
   intros Hf. destruct op; cbn [step].
   - pose proof (receive_fresh w slate amount ttl dest crypto_ok Hf).
     destruct (receive w slate amount ttl dest crypto_ok); exact H.
-  - pose proof (lock_fresh w slate ttl tip Hf). destruct (lock w slate ttl tip); exact H.
+  - destruct (lock_tx_cases w slate ttl tip has_tx) as [-> | ->];
+      [|cbn [fst]; split; [exact Hf|apply child_le_refl]].
+    pose proof (lock_fresh w slate ttl tip Hf). destruct (lock w slate ttl tip); exact H.
   - pose proof (cancel_fresh w id slate Hf). destruct (cancel w id slate); exact H.
   - pose proof (coinbase_fresh w fees height key Hf). destruct (coinbase w fees height key); exact H.
   - cbn [fst]. apply refresh_fresh. exact Hf.
@@ -1383,6 +1446,14 @@ Proof.
     destruct (finalize w slate ttl tip state_ok crypto_ok); exact H.
   - cbn [fst]. split; [destruct Hf as [A B]; split; [exact A|exact B]|intros x; cbn; lia].
   - cbn [fst]. apply expire_fresh. exact Hf.
+  - pose proof (issue_invoice_fresh w slate amount tip dest Hf).
+    destruct (issue_invoice w slate amount tip dest); exact H.
+  - pose proof (process_invoice_fresh w slate ttl src p tip pres km Hf).
+    destruct (process_invoice w slate ttl src p tip pres km); exact H.
+  - destruct (get_ctx w slate); cbn [fst]; [|split; [exact Hf|apply child_le_refl]].
+    destruct (check_ttl w ttl) as [[]|e|q]; cbn [fst]; try (split; [exact Hf|apply child_le_refl]).
+    pose proof (finalize_invoice_fresh w slate crypto_ok Hf).
+    destruct (finalize_invoice w slate crypto_ok); exact H.
 Qed.
 
 Lemma fresh_empty : Fresh empty_wallet.
@@ -1455,7 +1526,8 @@ Proof.
     cbn [fst]. apply next_child_spec in En as (_ & _ & _ & Ho1 & _).
     apply next_log_id_spec in El as (_ & Ho2 & _).
     unfold WF. cbn [w_outs with_log with_outs]. apply nodup_save. rewrite Ho2, Ho1. exact Hn.
-  - destruct (lock w slate ttl tip) as [w' r] eqn:E. cbn [fst]. eapply lock_wf; eauto.
+  - destruct (lock_tx_cases w slate ttl tip has_tx) as [-> | ->]; [|cbn [fst]; exact Hn].
+    destruct (lock w slate ttl tip) as [w' r] eqn:E. cbn [fst]. eapply lock_wf; eauto.
   - unfold cancel. destruct (retrieve_txs w id slate (w_active w)) as [|t [|t2 r]]; cbn [fst]; try exact Hn.
     destruct (negb _); cbn [fst]; [exact Hn|]. destruct (t_conf t); cbn [fst]; [exact Hn|].
     unfold WF. cbn [w_outs with_log with_outs]. now apply nodup_cancel_outputs.
@@ -1496,6 +1568,22 @@ Proof.
     unfold cancel. destruct (retrieve_txs w _ _ _) as [|t1 [|t2 r2]]; cbn [fst]; try exact Hn.
     destruct (negb _); cbn [fst]; [exact Hn|]. destruct (t_conf t1); cbn [fst]; [exact Hn|].
     unfold WF. cbn [w_outs with_log with_outs]. now apply nodup_cancel_outputs.
+  - unfold issue_invoice. destruct (next_child w) as [w1 key] eqn:En.
+    match goal with |- context [next_log_id w1 ?p] => destruct (next_log_id w1 p) as [w2 id] eqn:El end.
+    cbn [fst]. apply next_child_spec in En as (_ & _ & _ & Ho1 & _).
+    apply next_log_id_spec in El as (_ & Ho2 & _).
+    unfold WF. cbn [w_outs save_ctx with_ctxs with_log with_outs]. apply nodup_save. rewrite Ho2, Ho1. exact Hn.
+  - unfold process_invoice. destruct (check_ttl w ttl) as [[]|e|q]; cbn [fst]; try exact Hn.
+    destruct (find _ (w_log w)); cbn [fst]; [exact Hn|].
+    match goal with |- context [refresh w ?a ?b ?c ?d ?e] =>
+      pose proof (refresh_wf w a b c d e Hn) as Hnr; set (wr := refresh w a b c d e) in * end.
+    destruct (build_send _ _) as [b|e|q]; cbn [fst]; try exact Hnr.
+    destruct (alloc_change wr (b_changes b)) as [w1 chg] eqn:Ea. cbn [fst].
+    apply alloc_change_outs in Ea as (Ho1 & _). unfold WF. cbn [w_outs save_ctx with_ctxs]. rewrite Ho1. exact Hnr.
+  - destruct (get_ctx w slate); cbn [fst]; [|exact Hn].
+    destruct (check_ttl w ttl) as [[]|e|q]; cbn [fst]; try exact Hn.
+    unfold finalize_invoice. destruct (negb crypto_ok); cbn [fst]; [exact Hn|].
+    destruct (find _ _); cbn [fst]; exact Hn.
 Qed.
 
 Theorem wf_reachable : forall ops, WF (run empty_wallet ops).
@@ -1762,4 +1850,24 @@ Proof.
   intros q Hq [A B]. apply filter_In in Hq as [Hq Hf].
   pose proof (get_out_of_in _ _ Hwf Hq) as G. rewrite A, B, Hg in G. inversion G; subst.
   apply andb_true_iff in Hf as [Hf _]. apply andb_true_iff in Hf as [Hf _]. apply Hr. lia.
+Qed.
+
+(* ------------------------------------------------------------------ C17: invoices *)
+
+Lemma process_invoice_expired w s ttl src p tip pr km :
+  ttl <> 0 -> ttl <= lookup (w_confh w) (w_active w) ->
+  process_invoice w s ttl src p tip pr km = (w, Err EExpired).
+Proof.
+  intros H1 H2. unfold process_invoice.
+  assert (E : check_ttl w ttl = Err EExpired) by (apply check_ttl_spec; auto). now rewrite E.
+Qed.
+
+Lemma finalize_invoice_expired w s ttl c :
+  ttl <> 0 -> ttl <= lookup (w_confh w) (w_active w) ->
+  fst (step w (OpFinalizeInvoice s ttl c)) = w
+  /\ snd (step w (OpFinalizeInvoice s ttl c)) <> [0%Z].
+Proof.
+  intros H1 H2. cbn [step]. destruct (get_ctx w s); [|split; [reflexivity|discriminate]].
+  assert (E : check_ttl w ttl = Err EExpired) by (apply check_ttl_spec; auto). rewrite E.
+  split; [reflexivity|discriminate].
 Qed.
